@@ -47,7 +47,12 @@ KNOWN_KEYS = (G.KEY_CANCEL, G.KEY_BEGIN, G.KEY_WAITMIX)
 
 
 # ---------------------------------------------------------------------------------- running
+MPIIO = 'romio321'      # OpenMPI's default ompio returns short data for some collective strided reads that end at
+                        # EOF (seen with 4 ranks, both drivers alike; ROMIO reads the same file correctly)
+
+
 def run_exe(exe, np_, script_path, env, cwd, timeout):
+    env = dict(env); env.setdefault('OMPI_MCA_io', os.environ.get('C12_MPIIO', MPIIO))
     if np_ == 1:
         e = dict(os.environ); e.update(env)
         return C.sh([exe, script_path], timeout=timeout, env=e, cwd=cwd)
